@@ -89,6 +89,35 @@ def rejudge_spk(bad, cbname, p, dump, chain, coin, hostile):
     return keep
 
 
+def echo_scripts(script, fork):
+    """Innocent standard outputs that reuse a 20/32/33/65-byte push of `script` in ANOTHER role (the P2SH of the hash a P2PKH pays to,
+    the P2PKH of a P2PK's key, ...). Their rows are not derived from `script`; anything the evaluator keeps from `script` and keys too
+    coarsely (by the pushed bytes alone) shows in them."""
+    from ..ser import hash160
+    out, i, n = [], 0, len(script)
+    while i < n and len(out) < 6:
+        op = script[i]
+        i += 1
+        if 1 <= op <= 75:
+            ln = op
+        elif op == 0x4c and i < n:
+            ln = script[i]
+            i += 1
+        else:
+            continue
+        data = script[i:i + ln]
+        i += ln
+        if len(data) != ln:
+            break
+        if ln == 20:
+            out += [b"\x76\xa9\x14" + data + b"\x88\xac", b"\xa9\x14" + data + b"\x87"] + ([] if fork else [b"\x00\x14" + data])
+        elif ln in (33, 65):
+            out += [bytes([ln]) + data + b"\xac", b"\x76\xa9\x14" + hash160(data) + b"\x88\xac", b"\xa9\x14" + hash160(data) + b"\x87"]
+        elif ln == 32 and not fork:
+            out += [b"\x00\x20" + data, b"\x51\x20" + data]
+    return [o for o in out if o != script]
+
+
 def case(spec):
     coin, field, profile = spec["coin"], spec["field"], spec["profile"]
     rng = random.Random("C14|%s|%s|%s" % (spec["seed"], spec["n"], field))
@@ -101,6 +130,13 @@ def case(spec):
     for ln in (252, 253, 254, 255, 256, 0xfffe, 0xffff, 0x10000, 0x10001):
         body = rbytes(rng, ln - 1)
         pick.append(("hostile:len-boundary", bytes([rng.choice([0x6a, 0x00, 0x51, 0x76, 0xff])]) + body))
+    # well-formed standard scripts are byte strings too: as "hostile" content they matter because of what an implementation may remember
+    # about them (see echo_scripts)
+    for k in ("p2pkh", "p2sh", "p2pk33", "p2pk65", "p2pkh", "p2sh") * 4:
+        pick.insert(rng.randrange(len(pick) + 1), ("hostile:wellformed", sg.template(rng, k)))
+    fork = not COINS[coin].bitcoin_rules
+    hostile_set = {s for _, s in pick}
+    echoes = 0
     cb = gen.ChainBuilder(rng, coin)
     it = iter(pick)
     fams = set()
@@ -120,6 +156,10 @@ def case(spec):
             fams.update(":".join(f.split(":")[:2]) for f, _ in items)
             if field == "spk":
                 txs.append(cb.spend_tx(1, outs=[TxOut(rng.randint(0, 10**9), s) for _, s in items] + [cb.out("p2pkh")]))
+                ech = [e for _, s in items if len(s) < 200 for e in echo_scripts(s, fork) if e not in hostile_set][:12]
+                if ech:
+                    echoes += len(ech)
+                    txs.append(cb.spend_tx(1, outs=[TxOut(rng.randint(1, 10**9), e) for e in ech]))
             elif field == "sig":
                 t = cb.spend_tx(len(items), outs=[cb.out("p2pkh"), cb.out("p2sh")], segwit=False)
                 for i, (_, s) in zip(t.ins, items):
@@ -141,7 +181,7 @@ def case(spec):
     d = os.path.join(work, "d")
     datadir.write_datadir(d, COINS[coin], harness.simple_layout(chain))
     binary = core.build(profile)
-    v, counters, shapes = [], {"runs": 0, "hostile_fields": len(pick)}, set()
+    v, counters, shapes = [], {"runs": 0, "hostile_fields": len(pick), "echo_outputs": echoes}, set()
     for cbname in CALLBACKS:
         dump = harness.fresh(os.path.join(work, "o"))
         p = harness.run_cb(binary, d, coin, cbname, dump, timeout=600)
